@@ -866,7 +866,10 @@ impl<'p, 's, M: Matcher, W: WriteColor> Sink for StandardSink<'p, 's, M, W> {
         }
         if searcher.binary_detection().convert_byte().is_some() {
             if self.binary_byte_offset.is_some() {
-                return Ok(false);
+                // Don't print the context line, but keep searching: a
+                // subsequent match must still be seen so that the "binary
+                // file matches" message is printed.
+                return Ok(!self.should_quit());
             }
         }
 
